@@ -68,9 +68,9 @@ struct Model
     // the book named by the last `setoption name Polyglot Book`: key -> records
     std::map<uint64_t, std::vector<BookRec>> book;
     bool have_book = false;
-    // After `ucinewgame` a GUI always sends `position` before anything that looks at the board; what the board is in
-    // between is the engine's business (this one resets it to the start position, another might keep it), so the model
-    // treats it as unknown and the generator sends a `position` command next.
+    // What is on the board between `ucinewgame` and the next `position` command is the engine's business (this one resets
+    // it to the start position, another might keep it): ucifmt.h measures it once per process; if it cannot be determined
+    // the model treats the board as unknown and the generator sends a `position` command next.
     bool known = false;
     void set(const ref::Pos& s, const std::vector<ref::Move>& ms)
     {
@@ -80,10 +80,13 @@ struct Model
         for (auto& m : ms) cur = ref::make(cur, m);
         known = true;
     }
+    int newgame_board = 0;  // ucifmt::Fmt::newgame_board, measured once per process
     void newgame()
     {
+        if (newgame_board == 2 && known) return;  // this engine keeps the board
+        bool resets = newgame_board == 1;
         set(ref::startpos(), {});
-        known = false;
+        known = resets;
     }
 };
 
@@ -134,6 +137,7 @@ inline bool run_inner(Tape& t, Report& rep, Focus focus)
     send("ucinewgame");
     send("setoption name Polyglot Book value /nonexistent-verif-book");
     send("setoption name Polyglot Sample value best");
+    M.newgame_board = FMT.newgame_board;
     M.newgame();
     int ncmd = 3 + int(t.choose(12));
     bool lastWasGo = false;
